@@ -70,3 +70,41 @@ def mutator_functions(ctx, with_options=False):
         if m:
             out[f.key] = m
     return out
+
+
+DEAD_NAMES = {'DEAD_OR_ZOMBIE', 'UNEXISTING'}
+
+
+def dead_status_set(e, names=('status', 'process_status')):
+    """If `e` tests a process status against dead constants, return the set of
+    constants for which it is true ('in' tuple / '==' / or-chains); else None."""
+    if isinstance(e, ast.BoolOp) and isinstance(e.op, ast.Or):
+        out = set()
+        for v in e.values:
+            s = dead_status_set(v, names)
+            if s is None:
+                return None
+            out |= s
+        return out
+    if isinstance(e, ast.Compare) and len(e.ops) == 1:
+        left = e.left
+        lname = left.attr if isinstance(left, ast.Attribute) else (
+            left.id if isinstance(left, ast.Name) else None)
+        if lname not in names:
+            return None
+        c = e.comparators[0]
+        if isinstance(e.ops[0], ast.In) and isinstance(c, (ast.Tuple, ast.List, ast.Set)):
+            got = {dotted(x) for x in c.elts}
+        elif isinstance(e.ops[0], ast.Eq):
+            got = {dotted(c)}
+        else:
+            return None
+        if got and got <= DEAD_NAMES:
+            return got
+    return None
+
+
+def dead_test(e):
+    """atom predicate for idioms.guarded: True if e is a dead-status test."""
+    s = dead_status_set(e)
+    return True if s else None
